@@ -1,6 +1,6 @@
 use crate::internal::category::Category;
 use crate::internal::codepage::CodePage;
-use crate::internal::column::Column;
+use crate::internal::column::{Column, ColumnType};
 use crate::internal::expr::Expr;
 use crate::internal::query::{Delete, Insert, Select, Update};
 use crate::internal::stream::{StreamReader, StreamWriter, Streams};
@@ -33,6 +33,10 @@ const STRING_DATA_TABLE_NAME: &str = "_StringData";
 const STRING_POOL_TABLE_NAME: &str = "_StringPool";
 
 const MAX_NUM_TABLE_COLUMNS: usize = 32;
+
+// The maximum length of a string column is stored in the low byte of the
+// column's type bitfield.
+const MAX_STRING_COLUMN_WIDTH: usize = 255;
 
 // ========================================================================= //
 
@@ -82,6 +86,25 @@ fn make_validation_table(long_string_refs: bool) -> Rc<Table> {
         make_validation_columns(),
         long_string_refs,
     )
+}
+
+/// Checks that each of the rows is valid for a table with the given columns.
+fn check_catalog_rows(
+    columns: &[Column],
+    rows: &[Vec<Value>],
+) -> io::Result<()> {
+    for values in rows.iter() {
+        for (column, value) in columns.iter().zip(values.iter()) {
+            if !column.is_valid_value(value) {
+                invalid_input!(
+                    "{} is not a valid value for column {:?}",
+                    value,
+                    column.name()
+                );
+            }
+        }
+    }
+    Ok(())
 }
 
 fn is_reserved_table_name(table_name: &str) -> bool {
@@ -606,26 +629,48 @@ impl<F: Read + Write + Seek> Package<F> {
         if self.tables.contains_key(&table_name) {
             already_exists!("Table {:?} already exists", table_name);
         }
-        self.insert_rows(
-            Insert::into(COLUMNS_TABLE_NAME).rows(
-                columns
-                    .iter()
-                    .enumerate()
-                    .map(|(index, column)| {
-                        vec![
-                            Value::Str(table_name.clone()),
-                            Value::Int(1 + index as i32),
-                            Value::Str(column.name().to_string()),
-                            Value::Int(column.bitfield()),
-                        ]
-                    })
-                    .collect(),
-            ),
-        )?;
-        self.insert_rows(
-            Insert::into(TABLES_TABLE_NAME)
-                .row(vec![Value::Str(table_name.clone())]),
-        )?;
+        // Refuse column definitions that the file format cannot represent
+        // (rather than silently altering them).
+        for column in columns.iter() {
+            if let ColumnType::Str(max_len) = column.coltype() {
+                if max_len > MAX_STRING_COLUMN_WIDTH {
+                    invalid_input!(
+                        "Column {:?} has a maximum length of {}, but the \
+                         largest representable maximum length is {}",
+                        column.name(),
+                        max_len,
+                        MAX_STRING_COLUMN_WIDTH
+                    );
+                }
+            }
+            if let Some(values) = column.enum_values() {
+                for value in values.iter() {
+                    if value.is_empty() || value.contains(';') {
+                        invalid_input!(
+                            "{:?} cannot be used as an enum value for column \
+                             {:?} (enum values must be nonempty and must not \
+                             contain semicolons)",
+                            value,
+                            column.name()
+                        );
+                    }
+                }
+            }
+        }
+        let columns_rows: Vec<Vec<Value>> = columns
+            .iter()
+            .enumerate()
+            .map(|(index, column)| {
+                vec![
+                    Value::Str(table_name.clone()),
+                    Value::Int(1 + index as i32),
+                    Value::Str(column.name().to_string()),
+                    Value::Int(column.bitfield()),
+                ]
+            })
+            .collect();
+        let tables_rows: Vec<Vec<Value>> =
+            vec![vec![Value::Str(table_name.clone())]];
         let validation_rows: Vec<Vec<Value>> = columns
             .iter()
             .map(|column| {
@@ -667,12 +712,39 @@ impl<F: Read + Write + Seek> Package<F> {
                 ]
             })
             .collect();
+        // Make sure that every row we are about to add to the catalog tables
+        // is valid, so that we can't fail after the table has already been
+        // partially created.
+        let validation_columns: Option<Vec<Column>> =
+            if table_name == VALIDATION_TABLE_NAME {
+                Some(columns.clone())
+            } else {
+                self.tables
+                    .get(VALIDATION_TABLE_NAME)
+                    .map(|table| table.columns().to_vec())
+            };
+        check_catalog_rows(
+            self.tables.get(COLUMNS_TABLE_NAME).unwrap().columns(),
+            &columns_rows,
+        )?;
+        check_catalog_rows(
+            self.tables.get(TABLES_TABLE_NAME).unwrap().columns(),
+            &tables_rows,
+        )?;
+        if let Some(ref validation_columns) = validation_columns {
+            check_catalog_rows(validation_columns, &validation_rows)?;
+        }
+        self.insert_rows(Insert::into(COLUMNS_TABLE_NAME).rows(columns_rows))?;
+        self.insert_rows(Insert::into(TABLES_TABLE_NAME).rows(tables_rows))?;
         let long_string_refs = self.string_pool.long_string_refs();
         let table = Table::new(table_name.clone(), columns, long_string_refs);
         self.tables.insert(table_name, table);
-        self.insert_rows(
-            Insert::into(VALIDATION_TABLE_NAME).rows(validation_rows),
-        )?;
+        // (A package read from a file might not have a _Validation table.)
+        if validation_columns.is_some() {
+            self.insert_rows(
+                Insert::into(VALIDATION_TABLE_NAME).rows(validation_rows),
+            )?;
+        }
         Ok(())
     }
 
